@@ -986,7 +986,7 @@ def variant_mod(fname, obj, cbc, variant, enc_call=None, dec_call=None):
 
 
 def unit():
-    return Unit('cts', prelude=K.PRELUDE_BLOCK, spec=['steps.rs', 'cts.rs'], mods=[lib_mod(),
+    return Unit('cts', prelude=K.PRELUDE_BLOCK, spec=['steps.rs', 'cts.rs'], mods=K.DEPS() + [lib_mod(),
                       variant_mod('cbc_cs1', 'CbcCs1', True, 1, enc_call=cbc_enc_call(1), dec_call=cbc12_dec_call(1)),
                       variant_mod('cbc_cs2', 'CbcCs2', True, 2, enc_call=cbc_enc_call(2), dec_call=cbc12_dec_call(2)),
                       variant_mod('cbc_cs3', 'CbcCs3', True, 3, enc_call=cbc_enc_call(3), dec_call=cbc3_dec_call()),
